@@ -64,24 +64,35 @@ Definition ex_u : name := [117; 46; 109; 100].
 Definition ex_ww (names : list name) : wworld :=
   mkWw (fun p => if p =? 1 then Some names else None)
        (fun p => if p =? 2 then RdOk 5 else RdErr 2)
-       (fun p => if p =? 2 then MKOk [9; 9] else MKErr 2)
+       (fun p => if p =? 2 then MKOk [9; 9] else if p =? 1 then MKOk [1; 1] else MKErr 2)
        (fun p => p =? 2)
-       (fun d n => if (d =? 1) && name_in n names then (2, None) else (0, None)).
+       (fun d n => if (d =? 1) && name_in n names then 2 else 0)
+       (fun _ _ => false)
+       (fun d n => if (d =? 1) && name_in n names then Some (if name_eqb n [97; 46; 106; 115] then 2 else 9) else None).
 Definition ex_log : list obs := [OReadDir 1; OGet 1 ex_a; OGet 1 ex_b; OModKey 2; OReadFile 2; OModKey 3; OReadFile 3].
 Example ex_watch_clean : clean (ex_ww [ex_a; ex_u]) (finalize (ex_ww [ex_a]) (record (ex_ww [ex_a]) ex_log)) = true.
 Proof. vm_compute. reflexivity. Qed.
 Example ex_watch_dirty_when_missing_file_appears :
   dirty_paths (ex_ww [ex_a; ex_b]) (finalize (ex_ww [ex_a]) (record (ex_ww [ex_a]) ex_log)) = [1].
 Proof. vm_compute. reflexivity. Qed.
-Example ex_watch_wf : forall o, In o ex_log -> wf_path ex_log (obs_path o).
+Example ex_watch_wf : forall o, In o ex_log -> wf_path (ex_ww [ex_a]) ex_log (obs_path o).
 Proof.
   intros o H. unfold ex_log in H. simpl in H.
-  repeat (destruct H as [H|H]; [subst o; cbn [obs_path]; first [left; eexists; split; vm_compute; reflexivity | right; vm_compute; reflexivity]|]).
+  repeat (destruct H as [H|H]; [subst o; cbn [obs_path];
+    first [ left; eexists; split; [vm_compute; reflexivity|];
+            let o' := fresh in let H' := fresh in intros o' H'; simpl in H';
+            repeat (destruct H' as [H'|H']; [subst o'; left; reflexivity|]); contradiction
+          | right; vm_compute; reflexivity ]|]).
   contradiction.
 Qed.
 Example ex_watch_file_hyps : forall p, p = 2 \/ p = 3 -> file_hyps (ex_ww [ex_a]) (ex_ww [ex_a; ex_u]) p.
 Proof.
   intros p [H|H]; subst p; unfold file_hyps, coherent_at; cbn; repeat split; intros; try discriminate; try congruence; eauto.
+Qed.
+Example ex_watch_dir_coh : forall names p, dir_coh (ex_ww names) p.
+Proof.
+  intros names p H. unfold ex_ww in *. cbn in *. destruct (p =? 1) eqn:E; [|contradiction].
+  apply Z.eqb_eq in E. subst p. cbn. split; [eexists; reflexivity|]. split; [intros e; discriminate|reflexivity].
 Qed.
 
 (* entry kinds: the build asks for the kind of a.js (a plain file, which it then
@@ -89,26 +100,45 @@ Qed.
    is checked by computation *)
 Definition ex_child (d : path) (n : name) : path := if name_eqb n ex_a then 2 else 9.
 Definition ex_log_k : list obs := [OReadDir 1; OGet 1 ex_a; OKind 1 ex_a; OModKey 2; OReadFile 2].
-Ltac kind_hyps_file :=
-  unfold kind_hyps; split; [vm_compute; reflexivity|];
-  split; [vm_compute; split; intro; reflexivity|];
-  split; [vm_compute; split; [discriminate | let H := fresh in intro H; exfalso; apply H; reflexivity]|];
+Ltac kind_hyps_plain_file :=
+  unfold kind_hyps;
+  split; [vm_compute; split; [intros _; exists 2; split; reflexivity | reflexivity]|];
+  split; [vm_compute; split; [discriminate |
+            let t := fresh in let E := fresh in let N := fresh in
+            intros (t & E & N); inversion E; subst; vm_compute in N; exfalso; apply N; reflexivity]|];
   split; [vm_compute; right; right; reflexivity|];
-  split; [let n0 := fresh in let E := fresh in
-          intros n0 E; vm_compute in E; inversion E; subst; vm_compute; split; intro; [reflexivity | discriminate]
+  split; [intros _; split; [let n0 := fresh in let E := fresh in
+                             intros n0 E; vm_compute in E; inversion E; subst; vm_compute; split; intro; [reflexivity | discriminate]|];
+                    split; [let E := fresh in intro E; vm_compute in E; discriminate|];
+                    split; [intros _; vm_compute; reflexivity | let E := fresh in intro E; vm_compute in E; discriminate]
          | let E := fresh in intro E; vm_compute in E; discriminate].
 Example ex_kind_hyps : kind_hyps ex_child (ex_ww [ex_a]) 1 ex_a.
-Proof. kind_hyps_file. Qed.
+Proof. kind_hyps_plain_file. Qed.
 Example ex_kind_hyps' : kind_hyps ex_child (ex_ww [ex_a; ex_u]) 1 ex_a.
-Proof. kind_hyps_file. Qed.
+Proof. kind_hyps_plain_file. Qed.
 Example ex_kind_companions : kind_companions ex_child ex_log_k (ex_ww [ex_a]) 1 ex_a.
 Proof.
   unfold kind_companions. split; [right; left; reflexivity|].
-  split; [intros _; vm_compute; do 4 right; left; reflexivity | intro H; vm_compute in H; discriminate].
+  split; [intros _; exists 2; split; [reflexivity | do 4 right; left; reflexivity] | intro H; vm_compute in H; discriminate].
 Qed.
 Example ex_kind_all_same :
   clean (ex_ww [ex_a; ex_u]) (finalize (ex_ww [ex_a]) (record (ex_ww [ex_a]) ex_log_k)) = true /\
   all_same (ex_ww [ex_a]) (ex_ww [ex_a; ex_u]) ex_log_k = true.
+Proof. split; vm_compute; reflexivity. Qed.
+
+(* a symlink entry: the world of the former finding G (link.js -> file 5)
+   meets the symlink clause of kind_hyps, and on an unchanged world everything is clean *)
+Example ex_kind_hyps_symlink : kind_hyps (fun _ _ => 99) (g_world 5) 1 g_link.
+Proof.
+  unfold kind_hyps.
+  split; [vm_compute; split; [intros _; exists 5; split; reflexivity | reflexivity]|].
+  split; [vm_compute; split; [discriminate | intros (t & E & N); inversion E; subst; vm_compute in N; exfalso; apply N; reflexivity]|].
+  split; [vm_compute; right; right; reflexivity|].
+  split; [intro E; vm_compute in E; discriminate|].
+  intros _. split; [vm_compute; discriminate|]. split; [vm_compute; discriminate|]. intros _. vm_compute. discriminate.
+Qed.
+Example ex_symlink_clean_when_unchanged :
+  clean (g_world 5) (finalize (g_world 5) (record (g_world 5) g_log)) = true /\ all_same (g_world 5) (g_world 5) g_log = true.
 Proof. split; vm_compute; reflexivity. Qed.
 
 (* the whole cache set: a build that reads package.json through the resolver's
